@@ -33,6 +33,13 @@ fn replay_inputs(name: &str) -> Vec<Inp> {
         "two_ticks" | "top_merge" => Inp::flat2(&[1, 2, 3], &[11, 12, 13]),
         "batch_with_snapshot" | "batch_with_fold_snapshot" => Inp::flat2(&[1, 2, 3], &[1, 2, 4]),
         "net_cluster" => Inp::flat(&[1, 2, 3]),
+        "keyed_order_in_tick" | "top_keyed_order" => Inp::keyed(&[(1, 1), (2, 2), (1, 3), (2, 4), (1, 5), (2, 6), (3, 7), (3, 8)]),
+        "merge_in_tick" => Inp::flat2(&[1, 2, 3], &[11, 12, 13]),
+        "top_keyed_merge" | "keyed_merge_in_tick" => Inp {
+            a: vec![(1, 1), (2, 2), (1, 3), (2, 4), (3, 5)],
+            b: vec![(1, 11), (2, 12), (1, 13), (2, 14), (3, 15)],
+            ..Default::default()
+        },
         other => panic!("no replay input for {other}"),
     };
     let mut assume = base.clone();
@@ -41,6 +48,28 @@ fn replay_inputs(name: &str) -> Vec<Inp> {
     boom.boom_on_len = Some(2);
     boom.assume_first_len_ne = Some(3);
     vec![base, assume, boom]
+}
+
+/// Which hook types of sim/runtime.rs a flow exercises, and how their decisions show up in the log:
+/// (hook type, note written inside a tick?, note category).
+fn hook_kinds_of(flow: &str) -> Vec<(&'static str, bool, &'static str)> {
+    match flow {
+        "batch_ordered" | "two_ticks" => vec![("StreamHook<TotalOrder>", true, "items")],
+        "batch_unordered" => vec![("StreamHook<NoOrder>", true, "uitems"), ("StreamOrderHook", true, "order")],
+        "batch_keyed_ordered" => vec![("KeyedStreamHook<TotalOrder>", true, "items"), ("PartiallyOrderedStreamHook", true, "partial")],
+        "batch_keyed_unordered" => vec![("KeyedStreamHook<NoOrder>", true, "uitems")],
+        "snapshot_count" => vec![("SingletonHook", true, "snap")],
+        "snapshot_keyed_sum" => vec![("KeyedSingletonHook", true, "ksnap")],
+        "fold_unordered" => vec![("TopLevelFoldHook", false, "fold"), ("PassthroughSingletonHook", true, "snap")],
+        "top_order" => vec![("TopLevelStreamOrderHook", false, "top-order")],
+        "top_merge" => vec![("TopLevelMergeOrderedHook", false, "merge")],
+        "keyed_order_in_tick" => vec![("KeyedStreamOrderHook", true, "korder")],
+        "top_keyed_order" => vec![("TopLevelKeyedStreamOrderHook", false, "order"), ("TopLevelPartiallyOrderedStreamHook", false, "partial")],
+        "merge_in_tick" => vec![("MergeOrderedHook", true, "merge")],
+        "top_keyed_merge" => vec![("TopLevelKeyedMergeOrderedHook", false, "merge")],
+        "keyed_merge_in_tick" => vec![("KeyedMergeOrderedHook", true, "merge")],
+        _ => vec![],
+    }
 }
 
 pub fn c38_replay() {
@@ -56,7 +85,8 @@ pub fn c38_replay() {
 
     let fp = util::repo_fingerprint();
     let mut cases = vec![];
-    for name in ALL_CASES {
+    let mut hook_kinds_seen: std::collections::BTreeMap<&'static str, u64> = std::collections::BTreeMap::new();
+    for name in ALL_CASES.into_iter().chain(REPLAY_EXTRA_CASES) {
         if let Some(c) = &replay
             && c.get("flow").and_then(|f| f.as_str()) != Some(name)
         {
@@ -109,6 +139,28 @@ pub fn c38_replay() {
             if matches!(name, "batch_keyed_ordered" | "batch_keyed_unordered" | "snapshot_keyed_sum" | "net_cluster") && keyed_logs.insert(hash_of(&r1.log)) {
                 rep.count("distinct_keyed_logs");
             }
+            // which hook types made decisions in this instance (seen in its decision log)
+            for (kind, in_tick, cat) in hook_kinds_of(name) {
+                let hit = parsed.events.iter().any(|e| match e {
+                    util::Event::Tick(notes) => in_tick && notes.iter().any(|n| n.category() == cat),
+                    util::Event::Obs(n) => !in_tick && n.category() == cat,
+                });
+                if hit {
+                    *hook_kinds_seen.entry(kind).or_default() += 1;
+                }
+            }
+            if name == "keyed_order_in_tick"
+                && let Some(t) = &r1.trace
+                && t.iter().any(|tk| {
+                    let mut per: std::collections::BTreeMap<i64, usize> = std::collections::BTreeMap::new();
+                    for (k, _) in &tk.items {
+                        *per.entry(*k).or_default() += 1;
+                    }
+                    per.values().filter(|c| **c >= 2).count() >= 2
+                })
+            {
+                rep.count("keyed_inline_order_ticks_with_2_keys_x_2_values");
+            }
             let base = json!({"engine": "hv_sim_a", "flow": name, "input": inp.to_json(), "bytes": bytes});
             if r1.log != r2.log {
                 let l1 = util::strip_ansi(&r1.log);
@@ -139,13 +191,19 @@ pub fn c38_replay() {
         }
     }
 
+    rep.extra("hook_kinds_seen_in_logs", json!(hook_kinds_seen));
     if replay.is_none() {
-        rep.require(flows_seen == ALL_CASES.len(), "all corpus flows replayed");
+        rep.require(flows_seen == ALL_CASES.len() + REPLAY_EXTRA_CASES.len(), "all corpus flows replayed");
+        rep.require(
+            hook_kinds_seen.len() == 17,
+            "decisions of all 13 SimHook and 4 of the 5 SimInlineHook types seen in the replayed decision logs (KeyedMergeOrderedHook: see cases.rs)",
+        );
+        rep.require(rep.counter("keyed_inline_order_ticks_with_2_keys_x_2_values") >= 5, "KeyedStreamOrderHook exercised with >= 2 keys of >= 2 values in one tick");
         rep.require(rep.counter("verdict:pass") > 0 && rep.counter("verdict:assumption-failed") > 0 && rep.counter("verdict:test-body-panic") > 0, "all three verdict classes observed");
         rep.require(rep.counter("distinct_keyed_logs") >= 50, "many distinct schedules of the keyed (FxHashMap) flows replayed");
     }
     rep.finish(
-        "For each of the 13 corpus flows (keyed flows with 6-7 keys, a 3-member cluster flow over the simulated network) 200 (5000 thorough) random byte strings of length 0..256 \
+        "For each of the 13 corpus flows plus 5 replay-only flows (together exercising 17 of the 18 hook types of sim/runtime.rs - all but the inline KeyedMergeOrderedHook, whose only flow shape crashes the simulator; keyed flows with 3-7 keys and several values per key, a 3-member cluster flow over the simulated network) 200 (5000 thorough) random byte strings of length 0..256 \
          (uniform and low-entropy) are each fed twice to CompiledSim::fuzz_repro with run_with_scheduler_and_logger capturing the decision log. The test bodies of two of the three \
          inputs per flow contain a continue_if! and a failing assertion that depend on the schedule, so all verdict classes (pass / assumption failed / panic) occur. Oracle: \
          byte-identical logs, identical per-tick outputs, identical verdict (including the panic message). Non-trivial = a distinct decision log with at least two decisions.",
